@@ -52,6 +52,9 @@ class Project:
         for df, variants in world.rules.items():
             if df not in dofiles_absent:
                 self._write(df, script_text(variants[0], 0, df, gates=self.gates))
+        for name, text in getattr(world, "symlinks", {}).items():
+            (self.p / name).parent.mkdir(parents=True, exist_ok=True)
+            os.symlink(text, self.p / name)
 
     # -- user-side file operations (explicit, strictly increasing mtimes) ------
     def _tick(self):
